@@ -3,6 +3,7 @@
 //! the code did as ndjson for TLC to validate.
 mod absx;
 mod astp;
+mod compilec;
 mod escape;
 mod expand;
 mod facts;
@@ -16,7 +17,7 @@ mod util;
 mod vmrun;
 
 fn main() {
-    std::panic::set_hook(Box::new(|_| {}));
+    if std::env::var("VH_PANICS").is_err() { std::panic::set_hook(Box::new(|_| {})); }
     let args: Vec<String> = std::env::args().collect();
     if args.len() < 2 {
         eprintln!("usage: vh <command> [--key value ...]");
@@ -34,6 +35,7 @@ fn main() {
         "facts" => facts::cmd_facts(&opts),
         "vmrun" => vmrun::cmd_vmrun(&opts),
         "progs" => vmrun::cmd_progs(&opts),
+        "compile" => compilec::cmd_compile(&opts),
         "limits" => vmrun::cmd_limits(&opts),
         "savelog" => savelog::cmd_savelog(&opts),
         c => {
